@@ -20,7 +20,7 @@
     `PulserModel/Switch.lean` mirrors (guards, `check_retarget`, replayed call list, renamed calls,
     caught exception, sample comparison).
   * `dmm_rename_counterexample` / `dmm_rename_values`: the replay renamed DMM channels but not the
-    `delay` / `align` calls naming them (finding F18r) — repaired in /repo, the model follows.
+    `delay` / `align` calls naming them (finding F18r) — repaired in /repo d02eba4b, the model follows.
 
   Not proved (monitor / correspondence only): the non-strict clause (limits of the new device), the
   register clause, samples (`sample()` arrays), parametrized sequences.
